@@ -608,4 +608,150 @@ theorem waiter_woken_by_first_ready {ops : List Op} {st : RunState} {op : Op}
         fun s => by rw [parentsReady_eq_get]; exact stp.waiter s⟩
   · rw [hrun] at herr; cases herr
 
+/-! ### the premise: a syntactic sufficient form, necessity, non-vacuity -/
+
+/-- the arguments of the `prune` calls, in order -/
+def pruneArgs (ops : List Op) : List Nat := ops.flatMap (fun | .prune r => [r] | _ => [])
+/-- all slots ever submitted as skip marks (directly or as implicit skips of a finalization event) -/
+def skipArgs (ops : List Op) : List Nat := ops.flatMap (fun | .skip s => [s] | .fin ev => ev.implSkipped | _ => [])
+
+theorem mem_foldl_skMark {ss : List Nat} {h : Hist} {x : Nat} (hx : x ∈ (ss.foldl Hist.skMark h).sk) :
+    x ∈ h.sk ∨ x ∈ ss := by
+  induction ss generalizing h with
+  | nil => exact Or.inl hx
+  | cons s ss ih =>
+    rcases ih hx with h1 | h1
+    · unfold Hist.skMark at h1
+      split at h1
+      · exact Or.inl h1
+      · rcases List.mem_cons.mp h1 with e | h2
+        · exact Or.inr (e ▸ List.mem_cons_self)
+        · exact Or.inl h2
+    · exact Or.inr (List.mem_cons_of_mem _ h1)
+
+theorem hist_sk_sub (ops : List Op) : ∀ x, x ∈ (hist ops).sk → x ∈ skipArgs ops := by
+  induction ops using snoc_induction with
+  | nil => intro x hx; cases hx
+  | snoc ops op ih =>
+    intro x hx
+    rw [hist_snoc] at hx
+    unfold skipArgs
+    rw [List.flatMap_append, List.mem_append]
+    cases op with
+    | nf b => rw [Hist.step, (nfMark_same _ b).2.1] at hx; exact Or.inl (ih x hx)
+    | skip s =>
+      rcases @mem_foldl_skMark [s] _ _ hx with h1 | h1
+      · exact Or.inl (ih x h1)
+      · right; simpa using h1
+    | fin ev =>
+      rcases mem_foldl_skMark hx with h1 | h1
+      · rw [foldl_nfMark_sk] at h1; exact Or.inl (ih x h1)
+      · right; simpa using h1
+    | prune r => exact Or.inl (ih x hx)
+    | wait s => exact Or.inl (ih x hx)
+
+theorem hist_roots (ops : List Op) :
+    (∀ r, r ∈ (hist ops).roots → r ∈ pruneArgs ops) ∧ ((hist ops).root = 0 ∨ (hist ops).root ∈ pruneArgs ops) := by
+  induction ops using snoc_induction with
+  | nil => exact ⟨fun r hr => (by cases hr), Or.inl rfl⟩
+  | snoc ops op ih =>
+    rw [hist_snoc]
+    unfold pruneArgs at *
+    simp only [List.flatMap_append, List.mem_append]
+    cases op with
+    | nf b => obtain ⟨a1, _, a3, _⟩ := nfMark_same (hist ops) b; rw [Hist.step, a1, a3]
+              exact ⟨fun r hr => Or.inl (ih.1 r hr), ih.2.imp id Or.inl⟩
+    | skip s => obtain ⟨a1, a3, _⟩ := skMark_same (hist ops) s; rw [Hist.step, a1, a3]
+                exact ⟨fun r hr => Or.inl (ih.1 r hr), ih.2.imp id Or.inl⟩
+    | fin ev => obtain ⟨a1, a3, _⟩ := finMark_same (hist ops) ev; rw [Hist.step, a1, a3]
+                exact ⟨fun r hr => Or.inl (ih.1 r hr), ih.2.imp id Or.inl⟩
+    | prune r =>
+      refine ⟨fun r' hr => ?_, Or.inr (Or.inr (by simp [Hist.step, Hist.pruneTo]))⟩
+      rcases List.mem_cons.mp hr with e | h1
+      · right; simp [e]
+      · exact Or.inl (ih.1 r' h1)
+    | wait s => exact ⟨fun r hr => Or.inl (ih.1 r hr), ih.2.imp id Or.inl⟩
+
+theorem hist_mono_of_sorted (ops : List Op) (h : (pruneArgs ops).Pairwise (· ≤ ·)) : (hist ops).mono = true := by
+  induction ops using snoc_induction with
+  | nil => rfl
+  | snoc ops op ih =>
+    have hp : pruneArgs (ops ++ [op]) = pruneArgs ops ++ pruneArgs [op] := by
+      unfold pruneArgs; rw [List.flatMap_append]
+    rw [hp, List.pairwise_append] at h
+    have ih' := ih h.1
+    rw [hist_snoc]
+    cases op with
+    | nf b => rw [Hist.step, (nfMark_same _ b).2.2.2]; exact ih'
+    | skip s => rw [Hist.step, (skMark_same _ s).2.2]; exact ih'
+    | fin ev => rw [Hist.step, (finMark_same _ ev).2.2]; exact ih'
+    | prune r =>
+      simp only [Hist.step, Hist.pruneTo, Bool.and_eq_true, decide_eq_true_eq]
+      refine ⟨ih', ?_⟩
+      rcases (hist_roots ops).2 with e | hm
+      · omega
+      · exact h.2.2 _ hm r (by simp [pruneArgs])
+    | wait s => exact ih'
+
+/-- The premise in its plain syntactic form implies `SafeRun`: the prune roots are monotone and no slot that is ever
+    used as a prune root is ever submitted as a skip mark (directly or by a finalization event), before or after. -/
+theorem safeRun_of_roots_never_skipped {ops : List Op} (hmono : (pruneArgs ops).Pairwise (· ≤ ·))
+    (hns : ∀ r ∈ pruneArgs ops, r ∉ skipArgs ops) : SafeRun ops :=
+  ⟨hist_mono_of_sorted ops hmono, fun r hr => Or.inr (fun hm => hns r ((hist_roots ops).1 r hr) (hist_sk_sub ops r hm))⟩
+
+def outcome (ops : List Op) : Option Panic := match run ops with | .ok _ => none | .error e => some e
+def queryOf (ops : List Op) (s : Nat) : Option (List (Nat × Nat)) :=
+  match run ops with | .ok st => some (parentsReady st.t s) | .error _ => none
+def annOf (ops : List Op) : Option (List (Nat × (Nat × Nat))) :=
+  match run ops with | .ok st => some st.ann | .error _ => none
+def wakesOfRun (ops : List Op) : Option (List Wake) :=
+  match run ops with | .ok st => some st.wakes | .error _ => none
+
+/-- **The premise is necessary (1a)**: a slot is skip-marked and later used as prune root (slot 2, inside a window).
+    The run is fine otherwise (monotone roots, no panic), block (1,7) is connected to window start 4 in the accepted
+    history (skips 2, 3), but the backward walk of `mark_skipped(3)` is cut at the root: `parents_ready(4)` is empty. -/
+theorem ready_iff_fails_if_skipped_slot_becomes_root :
+    let ops : List Op := [.nf (1, 7), .skip 2, .prune 2, .skip 3]
+    ¬ SafeRun ops ∧ (hist ops).mono = true ∧ (hist ops).root ≤ 4 ∧
+      queryOf ops 4 = some [] ∧ Connected (hist ops) 4 (1, 7) := by decide
+
+/-- **The premise is necessary (1b)**: … and likewise when the prune root is skip-marked *afterwards*. -/
+theorem ready_iff_fails_if_root_is_skipped_later :
+    let ops : List Op := [.nf (1, 7), .prune 2, .skip 2, .skip 3]
+    ¬ SafeRun ops ∧ (hist ops).mono = true ∧ (hist ops).root ≤ 4 ∧
+      queryOf ops 4 = some [] ∧ Connected (hist ops) 4 (1, 7) := by decide
+
+/-- **The premise is necessary (2)**: prune roots that go backwards re-open decided slots; a re-delivered mark then hits
+    `assert!(!ready_ids.contains(&id))` … -/
+theorem panic_if_prune_roots_decrease :
+    outcome [.nf (3, 9), .prune 4, .prune 0, .nf (3, 9)] = some .readyAssert := by decide
+
+/-- … and the query is not exact either (the ready list of slot 4 is gone, the history still connects (1,7) to it). -/
+theorem ready_iff_fails_if_prune_roots_decrease :
+    let ops : List Op := [.nf (1, 7), .skip 2, .skip 3, .prune 8, .prune 0]
+    ¬ SafeRun ops ∧ (hist ops).root ≤ 4 ∧ queryOf ops 4 = some [] ∧ Connected (hist ops) 4 (1, 7) := by decide
+
+/-- The exemption of window starts in `SafeRun` is real (so `SafeRun` is strictly weaker than the syntactic premise):
+    slot 4 is skip-marked *and* used as prune root; the tracker stays exact — block (3,9) reaches window start 8 through
+    the retained ready list of slot 4. -/
+example :
+    let ops : List Op := [.nf (3, 9), .skip 4, .prune 4, .skip 5, .skip 6, .skip 7]
+    SafeRun ops ∧ 4 ∈ pruneArgs ops ∧ 4 ∈ skipArgs ops ∧ queryOf ops 8 = some [(3, 9)] ∧ Connected (hist ops) 8 (3, 9) := by
+  decide
+
+/-- **Non-vacuity**: a run over four windows with out-of-order skips, two waiters, a finalization event and two prunes in
+    the middle (to slot 5 inside a window, then to slot 9); marks below the root (skip 4, skip 8) are ignored.  The
+    premise holds (also in its syntactic form), nothing panics, four pairs are announced (each once), both waiters
+    are woken by the first parent of their window. -/
+def demoRun : List Op :=
+  [.nf (1, 7), .skip 2, .wait 4, .skip 3, .wait 8, .nf (5, 3), .prune 5, .skip 4, .skip 7, .skip 6, .nf (5, 2),
+   .fin ⟨some (9, 1), [(8, 6)], []⟩, .skip 11, .skip 10, .wait 12, .prune 9, .skip 8, .nf (9, 4)]
+
+example : SafeRun demoRun ∧ (pruneArgs demoRun).Pairwise (· ≤ ·) ∧ (∀ r ∈ pruneArgs demoRun, r ∉ skipArgs demoRun) ∧
+    (waitSlots demoRun).Nodup ∧ outcome demoRun = none ∧
+    annOf demoRun = some [(4, (1, 7)), (8, (5, 3)), (8, (5, 2)), (12, (9, 1)), (12, (9, 4))] ∧
+    wakesOfRun demoRun = some [(4, (1, 7)), (8, (5, 3))] ∧
+    queryOf demoRun 12 = some [(9, 1), (9, 4)] ∧ (hist demoRun).root = 9 ∧
+    Connected (hist demoRun) 12 (9, 4) ∧ ¬ Connected (hist demoRun) 12 (8, 6) := by decide
+
 end AgModel.ParentReady
